@@ -22,8 +22,15 @@ def setup(E, tier='quick'):
     T.install(E)
     TC.install_empty_list_hook(E)
     x = z3.Var(0, z3.RealSort())
-    E.finite_scope = {'K': 5, 'L': 3, 'funs': [(T.ROUND, x)], 'set_bools': {'grid_mode': False, 'halfway_tree': False, 'have_H': False},
-                      'timeout_ms': 20000 if tier == 'quick' else 120000}
+    tmo = 20000 if tier == 'quick' else 120000
+    # two concrete interpretations of the rounding function that satisfy the T5 axioms: identity (tol = 0) and
+    # round-half-up to integers (grid mode with unit u = 1)
+    E.finite_scope = [
+        {'K': 5, 'L': 3, 'funs': [(T.ROUND, x)], 'set_bools': {'grid_mode': False, 'halfway_tree': False, 'have_H': False},
+         'timeout_ms': tmo, 'label': 'round = identity'},
+        {'K': 4, 'L': 3, 'funs': [(T.ROUND, z3.ToReal(z3.ToInt(x + z3.RealVal('1/2')))), (T.KOF, z3.ToInt(x))],
+         'set_bools': {'grid_mode': True, 'have_H': False}, 'set_reals': {'u': 1}, 'timeout_ms': tmo, 'label': 'round = nearest integer, u = 1', 'drop_real_axioms': True},
+    ]
 
 
 def make(prefix, what, ghost):
